@@ -260,7 +260,9 @@ def create_dummy_in_mem_geff(
                         f"does not match num_nodes {num_nodes}"
                     )
 
-                node_props[prop_name] = {"values": prop_value, "missing": None}
+                prop_dict = {"values": prop_value, "missing": None}
+                node_props[prop_name] = prop_dict
+                node_prop_meta.append(create_props_metadata(prop_name, prop_dict))
 
             else:
                 raise ValueError(
